@@ -3,6 +3,7 @@
 //! log (begin is flushed before walrus is invoked, so a crash is attributable).
 
 mod probe;
+mod scen_cfg;
 mod scen_gate;
 mod scen_rt;
 mod util;
@@ -32,6 +33,7 @@ fn run_case(idx: u64, c: &CaseDesc, w: &mut Writer) {
         match kind {
             "rt" => scen_rt::run(input, &c.scenario, &mut end),
             "gate" => scen_gate::run(input, &mut end),
+            "cfg" => scen_cfg::run(input, &mut end),
             other => end.push_s("harness_error", &format!("unknown scenario {}", other)),
         }
     } else {
